@@ -96,6 +96,29 @@ def obligations(tier):
             dict(order=N, entry="class wrapper"), "exact reconstruction at sufficient rank", assumptions=tt_pre(N))
         add("_tt:tensor_train", f"N={N}", tt_setup(N), run_tt, lambda S, I, r: ([("tt_to_tensor(TT-SVD(X)) ≡ X when every truncated SVD is exact", SP.tt_to_tensor(S, r), I["X"])] if S.name == "sym" else []),
             dict(order=N), "exact reconstruction at sufficient rank", assumptions=tt_pre(N))
+    # ---- a requested rank above what a mode allows is clamped in the RESULT, never in the caller's rank specification: the list the caller hands over is the same
+    #      after the call, so a later call with the same list (or the same TensorTrain(rank=[...]) object) on a larger tensor still requests what the caller asked for
+    def run_tt_keep(I):
+        rk = list(I["rk"])
+        with stubbed(_tt, svd_interface=make_svd_stub(I["_S"], None)):
+            cores = list(_tt.tensor_train(I["X"], rk).factors)
+        return dict(cores=cores, rk=rk)
+    def run_tt_keep_class(I):
+        rk = list(I["rk"])
+        with stubbed(_tt, svd_interface=make_svd_stub(I["_S"], None)):
+            est = _tt.TensorTrain(rk)
+            cores = list(est.fit_transform(I["X"]).factors)
+        return dict(cores=cores, rk=rk, est_rank=list(est.rank) if isinstance(est.rank, (list, tuple)) else est.rank)
+    for fn, runner in (("_tt:tensor_train", run_tt_keep), ("_tt:TensorTrain.fit_transform", run_tt_keep_class)):
+        def post_keep(S, I, r):
+            # (the requested first rank exceeds the first mode size, so the rank the decomposition works with differs from the requested one on every path)
+            out = [("the caller's rank list is left as supplied (length)", len(r["rk"]), len(I["rk"]))]
+            out += [(f"the caller's rank list is left as supplied (entry {q})", a, b) for q, (a, b) in enumerate(zip(r["rk"], I["rk"]))]
+            if "est_rank" in r:
+                out += [(f"the estimator still holds the requested rank (entry {q})", a, b) for q, (a, b) in enumerate(zip(r["est_rank"], I["rk"]))]
+            return out
+        add(fn, "N=3, requested rank above the first mode size", tt_setup(3), runner, post_keep, dict(order=3, case="r1 > n0: clamped"), "rank specification of the caller is not written (the clamp is local)",
+            assumptions=lambda I: [I["n"][0] < I["rk"][1], I["rk"][2] <= I["n"][2]])
     # ---- TT-matrix (2 cores, 3 in thorough)
     for d in (1, 2) + ((3,) if tier == "thorough" else ()):  # d = 1: a plain matrix, returned as a single core without any SVD
         def setup(S, d=d):
